@@ -139,6 +139,12 @@ RESOURCES = [
     ]),
 ]
 
+# the root generation cannot compile partial_update with return-entity (open C12 finding): its callers leave those
+# resources out (VT_SKIP_RESOURCES=collRet,collRR)
+_skip = set(x for x in os.environ.get("VT_SKIP_RESOURCES", "").split(",") if x)
+RESOURCES = [r for r in RESOURCES if r["resourcePathSegments"][-1]["resourceName"] not in _skip]
+
+
 def manifest(package_root):
     return {"packageRoot": package_root, "inputDataTypes": TYPES, "dependencyDataTypes": [], "resources": RESOURCES}
 
